@@ -152,7 +152,7 @@ func init() {
 		"path.Dir", "path.Base", "path.Ext", "path/filepath.Join", "path/filepath.Base", "path/filepath.Ext", "path/filepath.Dir",
 		"unicode.IsLetter", "unicode.IsUpper", "unicode.IsDigit", "unicode.IsLower", "unicode.ToUpper", "unicode.ToLower",
 		"strconv.Itoa", "strconv.Quote", "strconv.FormatInt", "strconv.FormatFloat", "strconv.FormatBool", "strconv.FormatUint",
-		"net/url.PathEscape", "net/url.QueryEscape",
+		"net/url.PathEscape", "net/url.QueryEscape", "(net/url.Values).Encode", "(time.Time).Format",
 		"context.WithValue", "(*net/http.Request).WithContext",
 		"(*golang.org/x/text/cases.Caser).String", "(golang.org/x/text/cases.Caser).String",
 	} {
